@@ -14,6 +14,7 @@ FREE = {"memory_free", "free"}
 THREAD_CREATE = {"thread_create"}
 
 ALL = "ALL"  # top element of the must-lockset lattice (unreached)
+ANCHOR_RECORDS = {"channel", "channel_reader"}
 
 
 def obj_key(n):
@@ -25,7 +26,14 @@ def obj_key(n):
     root, chain = ir.field_chain(n)
     if not chain:
         return None
-    return (chain[0][0], ".".join(f for _, f in chain))
+    # objects embedded by value in a larger record (struct channel inside
+    # video_sink_s, the monitor's channel_reader inside the runtime) keep
+    # their own identity
+    start = 0
+    for j, (rec, fld) in enumerate(chain):
+        if rec in ANCHOR_RECORDS:
+            start = j
+    return (chain[start][0], ".".join(f for _, f in chain[start:]))
 
 
 def points_into(n):
